@@ -34,6 +34,7 @@ def tiny_configs(wide: bool = False) -> List[dict]:
     C.append(config(12, [view("chain", 0, slen=2, lst=[1, 5, 3])]))            # ... interior outside the span
     C.append(config(8, [view("chain", 0, slen=2, lst=[0, 1, 2, 3])]))          # a contiguous run
     C.append(config(12, [view("mdf", 0, size=6, slen=2, hdr=1, tail=1)]))      # MODE1/2352 scaled to 1+2+1
+    C.append(config(14, [view("mdf", 0, size=6, slen=2, hdr=1, tail=1)]))      # ... with a trailing fragment of a sector behind the last whole one
     C.append(config(6, [view("rev", 0, size=6, width=2)]))
     C.append(config(6, [view("rev", 0, size=4, width=1)]))
     C.append(config(6, [view("rev", 0, size=6, width=3)]))                     # a sample width that is not a power of two (24-bit samples)
